@@ -157,7 +157,19 @@ def record_eml(seed):
     nodes = list(w.nodes)
     for _ in range(rnd.randint(1, 5)):
         host = rnd.choice(nodes)
-        kind = rnd.choice(["unknown", "misplaced", "subtree"])
+        kind = rnd.choice(["unknown", "misplaced", "subtree", "starve", "corrupt-inner"])
+        if kind in ("starve", "corrupt-inner"):
+            # make a KNOWN, allowed inner node invalid while it still has valid descendants: strict prune must discard
+            # the whole subtree from the registry, non-strict prune must keep all of it
+            inner = [x for x in nodes if len(x.children) >= 2 and x.parent is not None]
+            if not inner:
+                continue
+            victim = rnd.choice(inner)
+            if kind == "starve":
+                victim.remove_child(victim.children[0])
+            else:
+                victim.content = "zq no content allowed here"
+            continue
         if kind == "unknown":
             j = Node("junk" + str(rnd.randint(0, 9)))
         elif kind == "misplaced":
